@@ -10,10 +10,10 @@ from vf import geom
 LEVEL = "exploration"
 RULE = ("seeded cases over the functional API {apply_sizematcher, apply_resizer, apply_pad_to_stride, generate_crops, apply_geometric_augmentation (affine / erase / mixup), "
         "apply_intensity_augmentation, find_instance_crop_size} and the four Dataset classes end to end (augmentation on/off): image sizes 32-235 px, aspect 1:3..3:1, max sizes "
-        "smaller/larger/other aspect, scales 0.25-2, max_stride 1-64, crop sizes and centroids incl. near borders, rotation <= 180 deg, scale ranges, translation <= 0.3, NaN keypoints. "
+        "smaller/larger/other aspect, scales 0.25-2, max_stride 1-64, crop sizes and centroids incl. near borders, rotation <= 180 deg, scale ranges, translation <= 0.3, NaN keypoints, RGB and grayscale (Datasets). "
         "non-trivial = non-identity geometry with >= 1 visible keypoint whose neighbourhood stays inside the output; distinct by (family, sizes, parameters)")
 ASSUMPTIONS = ["total up-scaling factor <= 2.5 (the half-pixel-centre convention of resizing alone shifts content by 0.5(s-1) output pixels)",
-               "RGB pipelines (coordinate coding needs three channels); the fit must use >= 12 intact pixels with rms residual < 0.35 px, otherwise the case is inconclusive",
+               "RGB pipelines directly; grayscale Dataset pipelines are decoded from two runs (x-coded and y-coded video) under the same torch seeds; the fit must use >= 12 intact pixels with rms residual < 0.35 px, otherwise the case is inconclusive",
                "registration tolerance: 1 output pixel, plus the explicit integer-size rounding of resizing (frac(W*scale) for apply_resizer, 0.5 px for the size matcher)"]
 SHARDS = {"quick": 8, "thorough": 16}
 N = {"quick": 1100, "thorough": 80000}
@@ -72,7 +72,8 @@ def gen_case(ctx, i):
         H, W = max(64, min(H, 160)), max(64, min(W, 160))
         c.update(H=H, W=W, pts=None, cls=str(r.choice(["single", "bottomup", "centroid", "centered"])), aug=bool(r.random() < 0.5), scale=float(r.choice([1.0, 0.5, 0.75])),
                  max_stride=int(r.choice([8, 16, 32])), max_hw=[None, [int(H * 1.3), int(W * 1.2)], [max(32, int(H * 0.7)), max(32, int(W * 0.8))]][int(r.integers(0, 3))],
-                 crop=int(r.choice([32, 48, 64])), anchor=[None, 0, 1][int(r.integers(0, 3))], n_animals=int(r.integers(1, 4)), rotation=float(r.choice([15.0, 90.0, 180.0])))
+                 crop=int(r.choice([32, 48, 64])), anchor=[None, 0, 1][int(r.integers(0, 3))], n_animals=int(r.integers(1, 4)), rotation=float(r.choice([15.0, 90.0, 180.0])),
+                 gray=bool(r.random() < 0.3))
     return c
 
 
@@ -302,10 +303,15 @@ def check_dataset(ctx, case, small):
 
     r = np.random.default_rng(case["seed"])
     H, W, n_nodes = case["H"], case["W"], 3
-    key = ("vid", H, W)
-    if key not in _CACHE:
-        _CACHE[key] = synth.coded_video("C04", f"coded_{H}x{W}.h5", 2, H, W)
-    v = _CACHE[key]
+    gray = bool(case.get("gray"))
+    modes = ["x", "y"] if gray else ["rgb"]
+    vids_by_mode = {}
+    for mode in modes:
+        key = ("vid", H, W, mode)
+        if key not in _CACHE:
+            _CACHE[key] = synth.coded_video("C04", f"coded_{mode}_{H}x{W}.h5", 2, H, W, mode=mode)
+        vids_by_mode[mode] = _CACHE[key]
+    v = vids_by_mode[modes[0]]
     sk = synth.skeleton(n_nodes)
     cls = case["cls"]
     n_an = 1 if cls == "single" else case["n_animals"]
@@ -323,23 +329,34 @@ def check_dataset(ctx, case, small):
     labels = synth.labels_from_poses(frames, sk)
     aug = case["aug"]
     geo = {"rotation": case["rotation"], "scale": (0.9, 1.1), "translate_width": 0.1, "translate_height": 0.1, "affine_p": 1.0}
-    data_cfg = OmegaConf.create({"user_instances_only": True, "preprocessing": {"is_rgb": True}, "augmentation_config": {"geometric": geo}})
+    data_cfg = OmegaConf.create({"user_instances_only": True, "preprocessing": {"is_rgb": not gray}, "augmentation_config": {"geometric": geo}})
     head = OmegaConf.create({"sigma": 1.5, "output_stride": 2, "anchor_part": case["anchor"], "part_names": None})
     max_hw = tuple(case["max_hw"]) if case["max_hw"] else (None, None)
-    common = dict(labels=labels, data_config=data_cfg, max_stride=case["max_stride"], scale=case["scale"], apply_aug=aug, max_hw=max_hw)
-    torch.manual_seed(case["seed"])
-    if cls == "single":
-        ds = cd.SingleInstanceDataset(confmap_head_config=head, **common)
-    elif cls == "bottomup":
-        ds = cd.BottomUpDataset(confmap_head_config=head, pafs_head_config=OmegaConf.create({"sigma": 4.0, "output_stride": 4}), **common)
-    elif cls == "centroid":
-        ds = cd.CentroidDataset(confmap_head_config=head, **common)
-    else:
-        ds = cd.CenteredInstanceDataset(crop_hw=(case["crop"], case["crop"]), confmap_head_config=head, **common)
+    def make_ds(lbls):
+        common = dict(labels=lbls, data_config=data_cfg, max_stride=case["max_stride"], scale=case["scale"], apply_aug=aug, max_hw=max_hw)
+        torch.manual_seed(case["seed"])
+        if cls == "single":
+            return cd.SingleInstanceDataset(confmap_head_config=head, **common)
+        if cls == "bottomup":
+            return cd.BottomUpDataset(confmap_head_config=head, pafs_head_config=OmegaConf.create({"sigma": 4.0, "output_stride": 4}), **common)
+        if cls == "centroid":
+            return cd.CentroidDataset(confmap_head_config=head, **common)
+        return cd.CenteredInstanceDataset(crop_hw=(case["crop"], case["crop"]), confmap_head_config=head, **common)
+
+    ds = make_ds(labels)
+    ds_y = None
+    if gray:  # grayscale pipelines are decoded from two runs (x-coded video, y-coded video) under the same torch seeds
+        labels_y = synth.labels_from_poses([(vids_by_mode["y"], f_, p_) for (_, f_, p_) in frames], sk)
+        ds_y = make_ds(labels_y)
+        ctx.count("grayscale_datasets")
     ctx.count("datasets:" + cls)
     ms = case["max_stride"]
-    for idx in [i for _epoch in range(2) for i in range(len(ds))]:  # two epochs: registration must also hold on a re-read
+    for n_read, idx in enumerate([i for _epoch in range(2) for i in range(len(ds))]):  # two epochs: registration must also hold on a re-read
+        torch.manual_seed(case["seed"] + 17 * n_read)
         s = ds[idx]
+        if gray:
+            torch.manual_seed(case["seed"] + 17 * n_read)
+            s2 = ds_y[idx]
         ctx.count("dataset_samples")
         if cls == "centered":
             img, kp = s["instance_image"], s["instance"].numpy().reshape(-1, 2)
@@ -367,6 +384,15 @@ def check_dataset(ctx, case, small):
             want_hw = None
         o = img[0].numpy() * 255.0
         marker_level = 128 + int(frames[lf_idx][1])
+        if gray:
+            img2 = s2["instance_image" if cls == "centered" else "image"]
+            kkey = "instance" if cls == "centered" else ("centroids" if cls == "centroid" else "instances")
+            if img.shape != img2.shape or img.shape[-3] != 1 or not np.array_equal(np.nan_to_num(s[kkey].numpy(), nan=-1), np.nan_to_num(s2[kkey].numpy(), nan=-1)):
+                ctx.violation("grayscale-runs-differ", f"{cls} dataset: the x-coded and y-coded runs (same labels, same seeds) give different keypoints or shapes", small)
+                continue
+            cx, cy = img[0, 0].numpy() * 255.0 / 0.2989, img2[0, 0].numpy() * 255.0 / 0.2989
+            o = np.stack([cx, cy, ((cx >= geom.OFFSET - 0.5) & (cy >= geom.OFFSET - 0.5)).astype(np.float64)])
+            marker_level = 1.0
         if cls == "centered" and not aug:
             cc = s["centroid"].numpy().reshape(2)
             ctx.count("centred_crop_checks")
